@@ -34,7 +34,7 @@ def main():
            "engines": [{"name": "xcverif", "path": "verif.py", "serves_properties": sorted(CLAIMS),
                         "kind_free_text": "Lean 4 theorems over a generated + hand-written model; translators regenerate the generated part from /repo on every run; a C harness and a Lean driver run the same op file for the correspondence; per-property oracle searches the implementation for a failing input"}],
            "checks": [], "not_applicable": [],
-           "notes": "fix: commits in /repo: 05a8488 (C13), 6db9970 (C12), 5081cef (C11), b269775 (C04); see known_findings.json"}
+           "notes": "fix: commits in /repo: 05a8488 (C13), 6db9970 (C12), 5081cef (C11), b269775 (C04), 2c336b0 (C01); see known_findings.json"}
     for p in props:
         i = p["id"]
         if i in CLAIMS:
